@@ -66,7 +66,62 @@ func vfC07GenCfg(rt *rapid.T) *vfxCfg {
 			}
 		}
 	}
+	// a mirrorPool gets a copy of the requests that carry the mirror header; it must never eat the
+	// body the selected backend is owed (one-shot stream bodies in particular)
+	c.Mirror = rapid.IntRange(0, 1).Draw(rt, "mirrorPool") == 0
+	if c.Mirror && rapid.Bool().Draw(rt, "mirror-with-streaming-upload-path") {
+		c.Paths[rapid.IntRange(0, len(c.Paths)-1).Draw(rt, "streaming-upload-path")].ClientMax = -1
+	}
 	return c
+}
+
+// vfC07PrevServerGen draws an earlier generation of the HTTPServer spec (other clientMaxBodySize
+// at server level, some paths with another or no own limit): the rig loads it first and then
+// reloads the mux with the spec under test, the way an update of the HTTPServer object does. Only
+// the limits of the generation that serves a request count.
+func vfC07PrevServerGen(rt *rapid.T, c *vfxCfg) *vfxCfg {
+	n := *c
+	n.Paths = append([]vfxPathCfg(nil), c.Paths...)
+	// mostly a non-zero server-level value different from the current one
+	for tries := 0; tries < 4; tries++ {
+		n.ServerClientMax = rapid.SampledFrom([]int64{-1, 1, 17, 1024, 65536, 65536, 0}).Draw(rt, "prev-server-clientMax")
+		if n.ServerClientMax != c.ServerClientMax {
+			break
+		}
+	}
+	for i := range n.Paths {
+		if rapid.Bool().Draw(rt, "prev-path-differs") {
+			n.Paths[i].ClientMax = vfC07GenLimit(rt, fmt.Sprintf("prev-path%d-clientMax", i))
+		}
+	}
+	return &n
+}
+
+// vfC07UpdatedServerCfg draws the next generation of the HTTPServer spec for a request-direction
+// case: another clientMaxBodySize at server level or on the path the case uses.
+func vfC07UpdatedServerCfg(rt *rapid.T, c *vfxCfg, pathIdx, size int) (*vfxCfg, string) {
+	n := *c
+	n.Paths = append([]vfxPathCfg(nil), c.Paths...)
+	lim := rapid.SampledFrom([]int64{1, 17, 1024, 65536, -1, 0, int64(size) - 1, int64(size) - 1, int64(size), int64(size) + 1}).Draw(rt, "updated-client-limit")
+	if lim < -1 {
+		lim = 1
+	}
+	what := rapid.SampledFrom([]string{"server-clientMax", "server-clientMax", "path-clientMax", "server-and-path-clientMax"}).Draw(rt, "updated-server-level")
+	switch what {
+	case "server-clientMax":
+		n.ServerClientMax = lim
+	case "path-clientMax":
+		n.Paths[pathIdx].ClientMax = lim
+	default:
+		// the path gives up (or gets) its own limit while the server-level value changes
+		n.ServerClientMax = lim
+		if n.Paths[pathIdx].ClientMax != 0 {
+			n.Paths[pathIdx].ClientMax = 0
+		} else {
+			n.Paths[pathIdx].ClientMax = vfC07GenLimit(rt, "updated-path-clientMax")
+		}
+	}
+	return &n, what
 }
 
 // vfC07UpdatedCfg draws the next generation of the pipeline: changed serverMaxBodySize at proxy
@@ -119,22 +174,25 @@ func vfC07GenSize(rt *rapid.T, eff int64, label string, thorough bool) int {
 }
 
 type vfC07Case struct {
-	Dir      string // req | resp
-	PathIdx  int
-	Pool     string // "" main, "b" candidate
-	Method   string
-	Size     int
-	Seed     uint32
-	Encoding string // cl | chunked | lying
-	LieExtra int
-	Chunks   []int
-	Split    int
-	Status   int
-	Pre      []int  // request direction, within the limit: the first attempts fail (502/503, or 0 = connection dropped after the request was read)
-	CType    string // Content-Type of the backend's response ("" = whatever net/http sniffs)
-	UpdateAt int    // >= 1: the pipeline is hot-updated (new limits) before this repetition; 0 = no update
-	AcceptEn string // client Accept-Encoding ("" = none)
-	Reps     int    // the same request (same route-cache key) is sent this many times
+	Dir          string // req | resp
+	PathIdx      int
+	Pool         string // "" main, "b" candidate
+	Method       string
+	Size         int
+	Seed         uint32
+	Encoding     string // cl | chunked | lying | cut (response direction: chunked body torn in a chunk, or its terminating chunk missing)
+	CutAt        int    // cut: bytes of the body that leave the backend before it drops the connection (-1: all of them, only the terminating chunk is missing)
+	Mirrored     bool   // the request carries the header the mirrorPool matches
+	LieExtra     int
+	Chunks       []int
+	Split        int
+	Status       int
+	Pre          []int  // request direction, within the limit: the first attempts fail (502/503, or 0 = connection dropped after the request was read)
+	CType        string // Content-Type of the backend's response ("" = whatever net/http sniffs)
+	UpdateAt     int    // >= 1: the pipeline is hot-updated (new limits) before this repetition; 0 = no update
+	ServerUpdate bool   // request direction: the update is one of the HTTPServer spec (clientMaxBodySize at server or path level)
+	AcceptEn     string // client Accept-Encoding ("" = none)
+	Reps         int    // the same request (same route-cache key) is sent this many times
 }
 
 func vfC07GenCase(rt *rapid.T, c *vfxCfg, thorough bool) (k vfC07Case, eff int64, inherited bool) {
@@ -144,6 +202,9 @@ func vfC07GenCase(rt *rapid.T, c *vfxCfg, thorough bool) (k vfC07Case, eff int64
 	k.Seed = uint32(rapid.IntRange(1, 1<<20).Draw(rt, "bodyseed"))
 	k.Encoding = rapid.SampledFrom([]string{"cl", "cl", "chunked", "chunked", "lying"}).Draw(rt, "encoding")
 	k.LieExtra = rapid.SampledFrom([]int{1, 1, 100}).Draw(rt, "lie-extra")
+	if c.Mirror {
+		k.Mirrored = rapid.IntRange(0, 3).Draw(rt, "mirrored") != 0
+	}
 	if k.Dir == "req" {
 		eff, inherited = vfC07Eff(c.Paths[k.PathIdx].ClientMax, c.ServerClientMax)
 		k.Method = rapid.SampledFrom([]string{"POST", "PUT", "PATCH"}).Draw(rt, "method")
@@ -160,6 +221,11 @@ func vfC07GenCase(rt *rapid.T, c *vfxCfg, thorough bool) (k vfC07Case, eff int64
 		k.Status = rapid.SampledFrom([]int{200, 200, 203, 404, 503}).Draw(rt, "status")
 	}
 	k.Size = vfC07GenSize(rt, eff, k.Dir, thorough)
+	if k.Dir == "resp" && k.Size > 0 && rapid.IntRange(0, 7).Draw(rt, "backend-cuts-chunked-body") == 0 {
+		// the backend promises a chunked body and drops the connection before it is complete
+		k.Encoding = "cut"
+		k.CutAt = rapid.SampledFrom([]int{-1, -1, 0, k.Size / 2, k.Size - 1, k.Size - 1}).Draw(rt, "cut-at")
+	}
 	k.Reps = rapid.SampledFrom([]int{1, 2, 2, 3}).Draw(rt, "repetitions")
 	k.CType = rapid.SampledFrom([]string{"", "text/plain", "application/json", "application/octet-stream", "text/event-stream", "text/event-stream; charset=utf-8",
 		"Text/Event-Stream", "text/html", "application/grpc", "multipart/form-data; boundary=vfb"}).Draw(rt, "backend-content-type")
@@ -173,11 +239,15 @@ func vfC07GenCase(rt *rapid.T, c *vfxCfg, thorough bool) (k vfC07Case, eff int64
 	if c.MemCache != nil && k.Dir == "resp" {
 		updOdds = 1
 	}
+	if k.Dir == "req" {
+		updOdds = 3
+	}
 	if rapid.IntRange(0, updOdds).Draw(rt, "hot-update") == 0 {
 		if k.Reps < 2 {
 			k.Reps = 2
 		}
 		k.UpdateAt = rapid.IntRange(1, k.Reps-1).Draw(rt, "update-before-repetition")
+		k.ServerUpdate = k.Dir == "req" && rapid.IntRange(0, 3).Draw(rt, "update-of-server-spec") != 0
 	}
 	if k.Size > 1<<20 && k.Reps > 2 {
 		k.Reps = 2 // multi-megabyte bodies: at most one repetition
@@ -203,11 +273,22 @@ func TestVerifC07Limits(t *testing.T) {
 	thorough := os.Getenv("VERIF_TIER") == "thorough"
 	rapid.Check(t, func(rt *rapid.T) {
 		cfg := vfC07GenCfg(rt)
-		rig, err := vfxNewRig(cfg)
+		first := cfg
+		var prev *vfxCfg
+		if rapid.IntRange(0, 2).Draw(rt, "server-spec-loaded-before") != 0 {
+			prev = vfC07PrevServerGen(rt, cfg)
+			first = prev
+		}
+		rig, err := vfxNewRig(first)
 		if err != nil {
 			rt.Fatalf("VF-INCONCLUSIVE cannot build the rig (configuration rejected by the acceptance path, or no listener): %v", err)
 		}
 		defer rig.Close()
+		if prev != nil {
+			if err := rig.updateServer(cfg); err != nil {
+				rt.Fatalf("VF-INCONCLUSIVE update of the HTTPServer spec rejected: %v", err)
+			}
+		}
 		nreq := rapid.IntRange(1, 5).Draw(rt, "nreq")
 		for i := 0; i < nreq; i++ {
 			k, eff, inherited := vfC07GenCase(rt, cfg, thorough)
@@ -217,6 +298,9 @@ func TestVerifC07Limits(t *testing.T) {
 			q := &vfxRequest{Method: k.Method, Target: fmt.Sprintf("/p%d/c%d?i=%d", k.PathIdx, i, i), Host: "c07.vf.test", Framing: "none"}
 			if k.Pool != "" {
 				q.Headers = append(q.Headers, [2]string{"X-Vf-Pool", k.Pool})
+			}
+			if k.Mirrored {
+				q.Headers = append(q.Headers, [2]string{vfxMirrorHeader, "1"})
 			}
 			if k.AcceptEn != "" {
 				q.Headers = append(q.Headers, [2]string{"Accept-Encoding", k.AcceptEn})
@@ -232,9 +316,23 @@ func TestVerifC07Limits(t *testing.T) {
 				}
 			} else {
 				sc.Body, sc.Framing, sc.Split, sc.LieExtra = body, k.Encoding, k.Split, k.LieExtra
+				if k.Encoding == "cut" {
+					sc.CutAt, sc.CutNoTerminator = k.CutAt, k.CutAt < 0
+				}
 			}
 			for rep := 0; rep < k.Reps; rep++ {
-				if k.UpdateAt > 0 && rep == k.UpdateAt {
+				if k.UpdateAt > 0 && rep == k.UpdateAt && k.Dir == "req" && k.ServerUpdate {
+					// a new generation of the HTTPServer spec: the limits of the generation that serves
+					// the request count
+					old := cfg
+					ncfg, what := vfC07UpdatedServerCfg(rt, cfg, k.PathIdx, k.Size)
+					if err := rig.updateServer(ncfg); err != nil {
+						rt.Fatalf("VF-INCONCLUSIVE update of the HTTPServer spec rejected: %v", err)
+					}
+					cfg, prev = ncfg, old
+					vf.Class("hot-update:" + what)
+					eff, inherited = vfC07Eff(cfg.Paths[k.PathIdx].ClientMax, cfg.ServerClientMax)
+				} else if k.UpdateAt > 0 && rep == k.UpdateAt {
 					ncfg, what := vfC07UpdatedCfg(rt, cfg, k.Pool, k.Size)
 					if err := rig.update(ncfg); err != nil {
 						rt.Fatalf("VF-INCONCLUSIVE hot update rejected: %v", err)
@@ -255,7 +353,7 @@ func TestVerifC07Limits(t *testing.T) {
 						}
 					}
 				}
-				if !vfC07Judge(rt, vf, rig, cfg, k, eff, inherited, rep, q, sc, body) {
+				if !vfC07Judge(rt, vf, rig, cfg, prev, k, eff, inherited, rep, q, sc, body) {
 					rig.dropConn()
 				}
 			}
@@ -265,7 +363,7 @@ func TestVerifC07Limits(t *testing.T) {
 
 // vfC07Judge sends one request and applies the statement's table. It returns false when a listed
 // known finding was hit (the exchange is abandoned).
-func vfC07Judge(rt *rapid.T, vf *vfCollector, rig *vfxRig, cfg *vfxCfg, k vfC07Case, eff int64, inherited bool, rep int, q *vfxRequest, sc *vfxScript, body []byte) bool {
+func vfC07Judge(rt *rapid.T, vf *vfCollector, rig *vfxRig, cfg, prev *vfxCfg, k vfC07Case, eff int64, inherited bool, rep int, q *vfxRequest, sc *vfxScript, body []byte) bool {
 	resp, seen, frontLog, transient, err := rig.exchange(q, sc)
 	if err != nil {
 		if err == errVfxTimeout {
@@ -284,14 +382,21 @@ func vfC07Judge(rt *rapid.T, vf *vfCollector, rig *vfxRig, cfg *vfxCfg, k vfC07C
 	over := eff >= 0 && int64(k.Size) > eff
 	declaredOver := eff >= 0 && declared > eff
 	near := eff >= 0 && int64(k.Size) >= eff-1 && int64(k.Size) <= eff+1
-	nontrivial := near || inherited || k.Encoding == "chunked"
+	nontrivial := near || inherited || k.Encoding == "chunked" || k.Encoding == "cut"
+	// the limit of the path comes from the server level and the generation loaded before had
+	// another server-level value
+	reloadedOuter := k.Dir == "req" && prev != nil && cfg.Paths[k.PathIdx].ClientMax == 0 && prev.ServerClientMax != cfg.ServerClientMax
+	mirrorCopies := 0
+	if k.Mirrored {
+		mirrorCopies = len(rig.mirrored())
+	}
 	effName := fmt.Sprint(eff)
 	if eff == vfC07Default {
 		effName = "default-4MiB"
 	}
 	// proxy compression applies (documented rule): client accepts gzip, declared length unknown or >= minLength
 	lengthKnown := declared
-	if k.Encoding == "chunked" {
+	if k.Encoding == "chunked" || k.Encoding == "cut" {
 		lengthKnown = -1
 	}
 	compressed := k.Dir == "resp" && cfg.Compression >= 0 && (k.AcceptEn == "" || k.AcceptEn == "gzip") &&
@@ -306,7 +411,15 @@ func vfC07Judge(rt *rapid.T, vf *vfCollector, rig *vfxRig, cfg *vfxCfg, k vfC07C
 		"resp-content-type=" + k.CType: k.Dir == "resp", "resp-event-stream-chunked-over-limit": k.Dir == "resp" && strings.HasPrefix(strings.ToLower(k.CType), "text/event-stream") && k.Encoding == "chunked" && over,
 		"memoryCache": cfg.MemCache != nil, "after-hot-update": k.UpdateAt > 0 && rep >= k.UpdateAt, "resp-memoryCache-repeated": cfg.MemCache != nil && k.Dir == "resp" && rep > 0,
 		"resp-memoryCache-hit(backend-not-contacted)": cfg.MemCache != nil && k.Dir == "resp" && rep > 0 && len(seen) == 0,
-		"resp-compressed": compressed, "resp-compressed-lying": compressed && k.Encoding == "lying", "resp-compressed-over": compressed && over} {
+		"resp-compressed": compressed, "resp-compressed-lying": compressed && k.Encoding == "lying", "resp-compressed-over": compressed && over,
+		"resp-chunked-body-cut": k.Encoding == "cut", "resp-chunked-body-cut:only-terminating-chunk-missing": k.Encoding == "cut" && k.CutAt < 0,
+		"resp-chunked-body-cut-buffered-below-limit": k.Encoding == "cut" && eff >= 0 && !over, "resp-chunked-body-cut-stream": k.Encoding == "cut" && eff < 0,
+		"mirrorPool": cfg.Mirror, "mirrored-request": k.Mirrored, "mirrored-request:copy-seen-by-mirror-server": mirrorCopies > 0,
+		"req-mirrored-with-body": k.Dir == "req" && k.Mirrored && k.Size > 0, "req-mirrored-stream-with-body": k.Dir == "req" && k.Mirrored && eff < 0 && k.Size > 0 && k.Encoding != "lying",
+		"server-spec-reloaded": prev != nil, "req-after-server-spec-reload": k.Dir == "req" && prev != nil,
+		"req-limit-from-server-level-changed-by-reload": reloadedOuter, "req-limit-from-server-level-changed-by-reload(previous-non-zero)": reloadedOuter && prev.ServerClientMax != 0,
+		"req-path-own-limit-changed-by-reload": k.Dir == "req" && prev != nil && prev.Paths[k.PathIdx].ClientMax != cfg.Paths[k.PathIdx].ClientMax,
+		"after-hot-update-of-server-spec":      k.ServerUpdate && k.UpdateAt > 0 && rep >= k.UpdateAt} {
 		if on {
 			vf.Class(n)
 		}
@@ -404,6 +517,17 @@ func vfC07Judge(rt *rapid.T, vf *vfCollector, rig *vfxRig, cfg *vfxCfg, k vfC07C
 	exact := resp.FramingErr == "" && decodeErr == nil && bytes.Equal(got, body)
 	is5xx := resp.Status >= 500 && resp.Status <= 599
 	switch {
+	case k.Encoding == "cut":
+		// the backend promised a chunked body and dropped the connection inside a chunk or before
+		// the terminating chunk: whatever arrived is shorter than what was promised
+		if noResponse || resp.Status >= 400 {
+			break
+		}
+		if eff < 0 && resp.Status == k.Status && (resp.FramingErr != "" || (labelledGzip && decodeErr != nil)) {
+			vf.Class("ambiguous-stream-short-body-detectable-abort")
+			break
+		}
+		return fail("resp-cut-chunked-body-success", "backend promised a chunked body of %d bytes and dropped the connection after %d of them (-1: all, terminating chunk missing): client got a well-framed %d with %s (Content-Encoding %q, decodes: %v)", k.Size, k.CutAt, resp.Status, vfxBrief(resp.Body), ce, decodeErr)
 	case k.Encoding == "lying":
 		if declaredOver {
 			vf.Class("ambiguous-declared-over-limit-but-short")
